@@ -674,8 +674,70 @@ Proof.
       rewrite (proj2 (Nat.eqb_neq Module caller)) by congruence.
       unfold ind. split_ifs; lia.
     + intros t0 _. rewrite S. reflexivity.
+  - (* TfCreate *)
+    destruct d; [|discriminate]. unfold bind, guard in H.
+    destruct (negb (Nat.eqb creator Module) && negb (is_some (tfadmin s (DCoin n)))); [|discriminate].
+    inversion H; subst s'.
+    split; [constructor; simpl; apply I|]. intros m Hm. split; [exact Hm|]. unfold slack. simpl. lia.
+  - (* TfMint *)
+    destruct d as [n|t]; [|discriminate]. unfold bind, guard in H.
+    destruct (is_admin s (DCoin n) sender && (0 <? x) && negb (blocked to)); [|discriminate].
+    apply good_step_ok; [exact I|].
+    pose proof (bank_mint_nn _ _ _ _ _ (inv_nn _ I) H) as N.
+    apply bank_mint_spec in H as [F [X [B [S [Eb Es]]]]].
+    split; [exact F|]. split; [|split; [|exact N]].
+    + intros m Hm. unfold slack. rewrite B, S, Eb, Es. destruct (m_coin m) eqn:Hc.
+      * unfold ind. split_ifs; lia.
+      * rewrite (inv_erc_den _ I m Hm Hc). simpl. unfold ind. lia.
+    + intros t _. rewrite S. simpl. unfold ind. lia.
+  - (* TfBurn: the bank's blocked list is what keeps a denom admin out of the escrow *)
+    destruct d as [n|t]; [|discriminate]. unfold bind, guard in H.
+    destruct (is_admin s (DCoin n) sender && (0 <? x) && negb (blocked from)) eqn:G; [|discriminate].
+    unfold blocked in G. decode.
+    apply good_step_ok; [exact I|].
+    pose proof (bank_burn_nn _ _ _ _ _ (inv_nn _ I) H) as N.
+    apply bank_burn_spec in H as [F [X [B [S [Eb Es]]]]].
+    split; [exact F|]. split; [|split; [|exact N]].
+    + intros m Hm. unfold slack. rewrite B, S, Eb, Es.
+      rewrite (proj2 (Nat.eqb_neq Module from)) by congruence. destruct (m_coin m) eqn:Hc.
+      * unfold ind. split_ifs; lia.
+      * rewrite (inv_erc_den _ I m Hm Hc). simpl. unfold ind. lia.
+    + intros t _. rewrite S. simpl. unfold ind. lia.
+  - (* TfChangeAdmin *)
+    unfold bind, guard in H. destruct (is_admin s d sender); [|discriminate]. inversion H; subst s'.
+    split; [constructor; simpl; apply I|]. intros m Hm. split; [exact Hm|]. unfold slack. simpl. lia.
   - discriminate.
   - discriminate.
+Qed.
+
+(** other modules' transactions leave the escrow alone: no tokenfactory admin operation and no bank send changes any
+    balance of the EVM module account (the account is on the bank's blocked list) *)
+Lemma escrow_untouched_by_other_modules s o s' : exec s o = Some s' ->
+  match o with
+  | TfCreate _ _ | TfMint _ _ _ _ | TfBurn _ _ _ _ | TfChangeAdmin _ _ _ | BankMsgSend _ _ _ _ => True
+  | _ => False
+  end ->
+  forall d, bank s' Module d = bank s Module d.
+Proof.
+  intros H Ho d0. destruct o; try contradiction; simpl in H; unfold bind, guard in H.
+  - destruct (negb (Nat.eqb caller Module) && (0 <? x) && negb (blocked to)) eqn:G; [|discriminate].
+    unfold blocked in G. decode.
+    apply bank_send_spec in H as [_ [_ [B _]]]. rewrite B.
+    rewrite (proj2 (Nat.eqb_neq Module to)), (proj2 (Nat.eqb_neq Module caller)) by congruence. unfold ind. split_ifs; lia.
+  - destruct d; [|discriminate].
+    destruct (negb (Nat.eqb creator Module) && negb (is_some (tfadmin s (DCoin n)))); [|discriminate].
+    inversion H; subst s'. reflexivity.
+  - destruct d as [n|t]; [|discriminate].
+    destruct (is_admin s (DCoin n) sender && (0 <? x) && negb (blocked to)) eqn:G; [|discriminate].
+    unfold blocked in G. decode.
+    apply bank_mint_spec in H as [_ [_ [B _]]]. rewrite B.
+    rewrite (proj2 (Nat.eqb_neq Module to)) by congruence. unfold ind. split_ifs; lia.
+  - destruct d as [n|t]; [|discriminate].
+    destruct (is_admin s (DCoin n) sender && (0 <? x) && negb (blocked from)) eqn:G; [|discriminate].
+    unfold blocked in G. decode.
+    apply bank_burn_spec in H as [_ [_ [B _]]]. rewrite B.
+    rewrite (proj2 (Nat.eqb_neq Module from)) by congruence. unfold ind. split_ifs; lia.
+  - destruct (is_admin s d sender); [|discriminate]. inversion H; subst s'. reflexivity.
 Qed.
 
 (** * Transactions (framed operations) and histories *)
@@ -953,3 +1015,25 @@ Proof.
   eexists. split; [exists (firstn 9 ex_ops); reflexivity|]. split; [vm_compute; reflexivity|].
   vm_compute. split; reflexivity.
 Qed.
+
+(** Non-vacuity for the tokenfactory class: a factory denom with a coin-born mapping; its admin can burn a user's
+    coins but not the escrow, cannot mint into the escrow, and neither can anybody send coins there *)
+Definition tf0 : denom := DCoin 2030.
+Definition ex_tf_ops : list op :=
+  [ Fund 3 DGas 100000000000; TfCreate 3 tf0; TfMint 3 tf0 1000 3; TfMint 3 tf0 500 4;
+    CreateFromCoin 3 tf0; ConvertCoinToEvm 3 tf0 600 1;
+    TfBurn 3 tf0 250 Module;          (* refused: the module account is blocked *)
+    TfBurn 3 tf0 250 4;               (* accepted: any other account *)
+    TfMint 3 tf0 10 Module;           (* refused *)
+    BankMsgSend 4 Module tf0 5;       (* refused *)
+    TfChangeAdmin 3 tf0 4; TfBurn 3 tf0 1 4; TfBurn 4 tf0 1 3 ]%nat.
+
+Example ex_tf_outcomes :
+  map (fun o => snd o) (snd (fold_left (fun acc o => let r := step (fst acc) o in (fst r, snd acc ++ [(o, snd r)])) ex_tf_ops (init, [])))
+  = [true; true; true; true; true; true; false; true; false; false; true; false; true].
+Proof. vm_compute. reflexivity. Qed.
+
+Example ex_tf_view :
+  view (run init ex_tf_ops) =
+  [ {| mo_map := {| m_tok := 0; m_den := tf0; m_coin := true |}; mo_esup := 600; mo_emod := 0; mo_bsup := 1249; mo_bmod := 600 |} ]%nat.
+Proof. vm_compute. reflexivity. Qed.
